@@ -271,8 +271,9 @@ def run(p: Program, rep: Report, tier: str) -> None:
         raise AnalysisError("BaseResponse.list_headers vanished")
     rep.analysed(lh.fq)
     unit = with_helpers(p, lh)
+    path_verdict = _list_headers_on_paths(p, rep, br, lh)
     sources = set()
-    for f_ in unit:
+    for f_ in unit if path_verdict is None else []:
         for n in ast.walk(f_.node):
             if isinstance(n, ast.comprehension):
                 sources.add(ast.unparse(n.iter))
@@ -289,7 +290,9 @@ def run(p: Program, rep: Report, tier: str) -> None:
     unit_names = {f_.name for f_ in unit}
     sources = {s_ for s_ in sources if not any(s_.startswith(pre + n_ + "(") for n_ in unit_names for pre in ("self.", "cls.", ""))}
     extra = sources - allowed
-    if extra:
+    if path_verdict is not None:
+        pass  # decided on the paths (below): sources and cookie lines
+    elif extra:
         rep.violation("R13.4", construct(lh, text="sources " + ", ".join(sorted(extra))), where(lh), "list_headers emits pairs that do not come from the checked header mapping or the cookie list")
     elif sources >= allowed:
         rep.ok("R13.4", "list_headers reads exactly self.headers.items() and self.cookies")
@@ -297,7 +300,7 @@ def run(p: Program, rep: Report, tier: str) -> None:
         rep.undecide("R13.4", f"list_headers sources {sorted(sources)}")
     # cookie lines are produced by Cookie.__str__/__bytes__ only: whatever iterates self.cookies uses the element only as str(c)/bytes(c)
     okc, seen_c, unknown_c = True, 0, False
-    for f_ in unit:
+    for f_ in unit if path_verdict is None else []:
         for n in ast.walk(f_.node):
             if isinstance(n, (ast.comprehension, ast.For)) and ast.unparse(n.iter) == "self.cookies" and isinstance(n.target, ast.Name):
                 cv = n.target.id
@@ -314,7 +317,9 @@ def run(p: Program, rep: Report, tier: str) -> None:
                                 unknown_c = True  # handed to a callable the rule cannot see through (a renderer picked from a table)
                             else:
                                 okc = False
-    if okc and unknown_c:
+    if path_verdict is not None:
+        pass
+    elif okc and unknown_c:
         rep.undecide("R13.4", "a cookie of self.cookies is handed to a callable the rule cannot resolve (renderer chosen at run time): cannot tell whether the line is str(cookie)/bytes(cookie)")
     elif okc and seen_c:
         rep.ok("R13.4", "cookie lines are str(cookie)/bytes(cookie)")
@@ -395,3 +400,69 @@ def redirect_location_provenance(p: Program, rep: Report, rule: str) -> None:
                     rep.violation(rule, construct(init, node), where(init, node), f"{side}: redirect target reaches the Location header without iri_to_uri (got {show(v)})")
         if not found:
             rep.undecide(rule, f"{side}: no location store found")
+
+
+def _list_headers_on_paths(p: Program, rep: Report, br, lh):
+    """R13.4 decided on the return paths of list_headers (helpers, renderer tables and map() seen through by the engine):
+    every contribution to the returned list is `self.headers.items()` itself, a comprehension over it, or a comprehension
+    over `self.cookies` whose element is (set-cookie, str(cookie) | bytes(cookie)). Returns True when it reported a verdict,
+    None when some contribution has a form it does not recognise (the caller then falls back to the syntactic rule)."""
+    try:
+        paths, _c, _i = run_paths(p, lh, br)
+    except Exception:
+        return None
+    rets = [pa for pa in paths if pa.exit == "return"]
+    if not rets:
+        return None
+    HDR_ITEMS = ("attr", ("attr", ("param", "self"), "headers"), "items")
+    COOKIES = ("attr", ("param", "self"), "cookies")
+    problems, n_hdr, n_ck = [], 0, 0
+    for pa in rets:
+        v = pa.value
+        items = None
+        if v[0] == "list":
+            items = list(v[1])
+        elif v[0] == "mut" and v[1][0] == "list":
+            items = list(v[1][1])
+        if items is None:
+            return None
+        contribs = []
+        for it_ in items:
+            if it_[0] != "star":
+                return None
+            contribs.append(it_[1])
+        for e in pa.events:
+            if e.kind == "call" and e.a[0] == "attr" and e.a[2] == "extend" and e.a[1][0] in ("list", "mut") and len(e.b) == 1:
+                contribs.append(e.b[0])
+            elif e.kind == "call" and e.a[0] == "attr" and e.a[2] in ("append", "insert") and e.a[1][0] in ("list", "mut"):
+                return None
+        if not contribs:
+            return None
+        for x in contribs:
+            if x[0] == "call" and x[1] == HDR_ITEMS and not x[2]:
+                n_hdr += 1
+                continue
+            if x[0] != "comp":
+                return None
+            src, el = x[3], x[2]
+            if x[4]:
+                return None  # a filtered comprehension: not this rule's idiom
+            if src[0] == "call" and src[1] == HDR_ITEMS and not src[2]:
+                n_hdr += 1
+            elif src == COOKIES:
+                n_ck += 1
+                line_ok = el[0] == "tuple" and len(el[1]) == 2 and el[1][0][0] == "const" and str(el[1][0][1] if isinstance(el[1][0][1], str) else el[1][0][1].decode("latin-1")).lower() == "set-cookie" \
+                    and el[1][1][0] == "call" and el[1][1][1] in (("builtin", "str"), ("builtin", "bytes")) and el[1][1][2] == (("elem", src),)
+                if not line_ok:
+                    problems.append(("cookie line not str(cookie)/bytes(cookie)", f"a Set-Cookie line is produced as {show(el)[:70]}, not (set-cookie, str(cookie) | bytes(cookie)): it bypasses the escaper"))
+            else:
+                problems.append(("sources " + show(src)[:60], f"list_headers emits pairs taken from {show(src)[:60]}, which is neither the checked header mapping nor the cookie list"))
+    if problems:
+        for cons_, msg_ in dict(problems).items():
+            rep.violation("R13.4", construct(lh, text=cons_), where(lh), msg_)
+        return True
+    if not n_hdr or not n_ck:
+        return None
+    rep.ok("R13.4", f"list_headers reads exactly self.headers.items() and self.cookies on all {len(rets)} return paths")
+    rep.ok("R13.4", "cookie lines are str(cookie)/bytes(cookie)")
+    return True
